@@ -157,6 +157,8 @@ Proof. pose proof (firstn_app_exact (be 4 x) (zeros 4)) as H. rewrite be_length 
 Lemma pad8_blen_zeros l : blen (zeros (N.to_nat (pad8 l))) = pad8 l.
 Proof. rewrite blen_zeros, N2Nat.id. reflexivity. Qed.
 
+Global Opaque be zeros.
+
 Ltac hdr_step Htag Hz Hlt :=
   unfold header in *; rewrite <- ?app_assoc in *;
   erewrite expect_tag_item by eauto; cbn [bind]; rewrite <- ?app_assoc.
@@ -165,46 +167,49 @@ Lemma dec_prim_enc k tag v b tl st :
   tag <> 0 -> tag < 2 ^ 24 -> wf_prim k v -> enc_prim tag k v = Some b -> at_item tag b tl st ->
   dec_prim k tag st = Ok (v, blen b, {| rest := tl; last := 0 |}).
 Proof.
-  intros Hz Hlt Hwf Henc Hat. unfold dec_prim.
-  destruct k, v; cbn [enc_prim wf_prim] in *; try discriminate; try contradiction;
-    injection Henc as <-; unfold header in Hat; rewrite <- !app_assoc in Hat;
-    erewrite expect_tag_item by eauto; cbn [bind]; cbn [type_code];
+  intros Hz Hlt Hwf Henc Hat. unfold dec_prim. unfold enc_prim in Henc. unfold wf_prim in Hwf.
+  destruct k, v; cbv beta iota in Henc, Hwf; try discriminate; try contradiction;
+    injection Henc as <-; unfold header in Hat; rewrite <- ?app_assoc in Hat;
+    rewrite (expect_tag_item _ _ _ _ Hz Hlt Hat); cbn [bind]; unfold type_code; rewrite <- ?app_assoc;
     rewrite expect_num_be by (cbn; lia); cbn [bind].
   - (* int *)
     rewrite expect_num_be by (cbn; lia). cbn [bind].
     rewrite app_assoc. rewrite read_n_app by (rewrite app_length, be_length, zeros_length; reflexivity). cbn [bind].
     rewrite firstn_be4_zeros. pose proof (to_u32_lt z). rewrite unbe_be0 by (cbn; lia). rewrite of_to_u32 by assumption.
-    rewrite !blen_app, !blen_be, blen_zeros. reflexivity.
+    unfold header. rewrite !blen_app, !blen_be, blen_zeros. reflexivity.
   - (* long *)
     rewrite expect_num_be by (cbn; lia). cbn [bind].
     rewrite read_n_app by apply be_length. cbn [bind].
     pose proof (to_u64_lt z). rewrite unbe_be0 by (cbn; lia). rewrite of_to_u64 by assumption.
-    rewrite !blen_app, !blen_be. reflexivity.
+    unfold header. rewrite !blen_app, !blen_be. reflexivity.
   - (* enum *)
     rewrite expect_num_be by (cbn; lia). cbn [bind].
     rewrite app_assoc. rewrite read_n_app by (rewrite app_length, be_length, zeros_length; reflexivity). cbn [bind].
     rewrite firstn_be4_zeros. rewrite unbe_be0 by (cbn; lia).
-    rewrite !blen_app, !blen_be, blen_zeros. reflexivity.
+    unfold header. rewrite !blen_app, !blen_be, blen_zeros. reflexivity.
   - (* bool *)
     rewrite expect_num_be by (cbn; lia). cbn [bind].
     rewrite app_assoc. rewrite read_n_app by (rewrite app_length, zeros_length; cbn; reflexivity). cbn [bind].
-    rewrite !blen_app, !blen_be, blen_zeros.
-    destruct b0; cbn; reflexivity.
+    set (x := if b0 then x01 else x00).
+    pose proof (firstn_app_exact (zeros 7) [x]) as F. pose proof (skipn_app_exact (zeros 7) [x]) as G.
+    rewrite zeros_length in F, G. rewrite F, G, all_zero_zeros.
+    unfold header. rewrite !blen_app, !blen_be, blen_zeros.
+    unfold x. destruct b0; cbn [Byte.eqb]; reflexivity.
   - (* bytes *)
     rewrite read_num_be by (cbn; lia). cbn [bind].
     rewrite read_nN_app by reflexivity. cbn [bind].
     rewrite read_nN_app by apply pad8_blen_zeros. cbn [bind].
-    rewrite !blen_app, !blen_be, blen_zeros, N2Nat.id. f_equal. f_equal. f_equal. lia.
+    unfold header. rewrite !blen_app, !blen_be, blen_zeros, N2Nat.id. f_equal. f_equal. f_equal. cbn. lia.
   - (* string *)
     rewrite read_num_be by (cbn; lia). cbn [bind].
     rewrite read_nN_app by reflexivity. cbn [bind].
     rewrite read_nN_app by apply pad8_blen_zeros. cbn [bind].
-    rewrite !blen_app, !blen_be, blen_zeros, N2Nat.id. f_equal. f_equal. f_equal. lia.
+    unfold header. rewrite !blen_app, !blen_be, blen_zeros, N2Nat.id. f_equal. f_equal. f_equal. cbn. lia.
   - (* time *)
     rewrite expect_num_be by (cbn; lia). cbn [bind].
     rewrite read_n_app by apply be_length. cbn [bind].
     pose proof (to_u64_lt sec). rewrite unbe_be0 by (cbn; lia). rewrite of_to_u64 by assumption.
-    rewrite !blen_app, !blen_be. reflexivity.
+    unfold header. rewrite !blen_app, !blen_be. reflexivity.
   - (* duration *)
     destruct Hwf as [secs [Hs ->]].
     rewrite expect_num_be by (cbn; lia). cbn [bind].
